@@ -45,6 +45,9 @@ def _latent_time_interval(ts: datetime, ti: Interval) -> Interval:
     assert ti.t_from and ti.t_to  # guaranteed by the caller
     dm_from = ts + relativedelta(hour=ti.t_from.hour, minute=ti.t_from.minute or 0)
     dm_to = ts + relativedelta(hour=ti.t_to.hour, minute=ti.t_to.minute or 0)
+    if dm_to <= dm_from:
+        # the range crosses midnight (23:30 - 3:35): it ends on the following day
+        dm_to += relativedelta(days=1)
     if dm_from <= ts:
         dm_from += relativedelta(days=1)
         dm_to += relativedelta(days=1)
